@@ -220,8 +220,9 @@ func patchYAML(b []byte, patch map[string]string) []byte {
 	return []byte(strings.Join(lines, "\n"))
 }
 
-// Materialise builds the repository's generator driver from the snapshot and runs it for
-// every configuration, in parallel.
+// Materialise builds the repository's generator driver from the snapshot and runs it for every configuration.  Each run works
+// in its own private copy of the snapshot (the generator runs `go mod tidy` and package loads over the whole module, so
+// concurrent runs in one tree can observe each other's half-written output); the files it wrote are then copied back.
 func (s *Snapshot) Materialise(cfgs []GenConfig) ([]*Materialised, error) {
 	gen := filepath.Join(s.base, "gqlgen-driver")
 	cmd := exec.Command("go", "build", "-o", gen, "./testdata/gqlgen.go")
@@ -231,28 +232,31 @@ func (s *Snapshot) Materialise(cfgs []GenConfig) ([]*Materialised, error) {
 		return nil, fmt.Errorf("building generator driver from snapshot: %v\n%s", err, out)
 	}
 	res := make([]*Materialised, len(cfgs))
-	// overlays first (sequential, cheap)
-	for i, c := range cfgs {
-		res[i] = &Materialised{Config: c, Files: map[string]string{}}
-		if c.From != "" {
-			if err := s.applyOverlay(c); err != nil {
-				res[i].Err = err.Error()
-			}
-		}
-	}
 	var wg sync.WaitGroup
 	sem := make(chan struct{}, 8)
-	for i := range cfgs {
-		if res[i].Err != "" {
-			continue
-		}
+	var mu sync.Mutex
+	for i, c := range cfgs {
+		res[i] = &Materialised{Config: c, Files: map[string]string{}}
 		wg.Add(1)
-		go func(m *Materialised) {
+		go func(m *Materialised, idx int) {
 			defer wg.Done()
 			sem <- struct{}{}
 			defer func() { <-sem }()
 			c := m.Config
-			dir := filepath.Join(s.Dir, c.Dir)
+			priv := &Snapshot{Dir: filepath.Join(s.base, fmt.Sprintf("gen-%d", idx), "repo"), base: s.base}
+			os.MkdirAll(filepath.Dir(priv.Dir), 0o755)
+			defer os.RemoveAll(filepath.Dir(priv.Dir))
+			if out, err := exec.Command("rsync", "-a", s.Dir+"/", priv.Dir+"/").CombinedOutput(); err != nil {
+				m.Err = fmt.Sprintf("private copy: %v: %s", err, out)
+				return
+			}
+			if c.From != "" {
+				if err := priv.applyOverlay(c); err != nil {
+					m.Err = err.Error()
+					return
+				}
+			}
+			dir := filepath.Join(priv.Dir, c.Dir)
 			for _, r := range c.Remove {
 				os.Remove(filepath.Join(dir, r))
 			}
@@ -273,13 +277,33 @@ func (s *Snapshot) Materialise(cfgs []GenConfig) ([]*Materialised, error) {
 				return
 			}
 			after := goFileTimes(dir)
-			for p, t := range after {
-				if bt, ok := before[p]; !ok || bt != t {
-					rel, _ := filepath.Rel(s.Dir, p)
-					m.Files[rel] = fileSHA(p)
+			mu.Lock()
+			defer mu.Unlock()
+			// overlay directories are copied back whole; otherwise only the files the generator wrote
+			if c.From != "" {
+				if out, err := exec.Command("rsync", "-a", dir+"/", filepath.Join(s.Dir, c.Dir)+"/").CombinedOutput(); err != nil {
+					m.Err = fmt.Sprintf("copy back: %v: %s", err, out)
+					return
 				}
 			}
-		}(res[i])
+			for p, t := range after {
+				if bt, ok := before[p]; !ok || bt != t {
+					rel, _ := filepath.Rel(priv.Dir, p)
+					dst := filepath.Join(s.Dir, rel)
+					b, err := os.ReadFile(p)
+					if err != nil {
+						m.Err = err.Error()
+						return
+					}
+					os.MkdirAll(filepath.Dir(dst), 0o755)
+					if err := os.WriteFile(dst, b, 0o644); err != nil {
+						m.Err = err.Error()
+						return
+					}
+					m.Files[rel] = fileSHA(dst)
+				}
+			}
+		}(res[i], i)
 	}
 	wg.Wait()
 	return res, nil
